@@ -631,6 +631,79 @@ def _round_trip(p: Program, rep: Report, F: Folder, table: Dict[str, ClassInfo])
     rep.require_instances("R8.6", 9)
     rep.require_instances("R8.7", 1)
 
+    # ------------------------------------------------------------------ R8.8 a placeholder gets the convertor ITS type names
+    # "each {name:type} placeholder [is matched] by a string of its type's language": in compile_path the convertor recorded for
+    # a placeholder name is CONVERTOR_TYPES[<the type text of the SAME match>] (the text after ':', 'str' when absent)
+    from ..collect import default_inline as _di8
+    from ..flow import subterms as _st8
+    cp = p.module("baize.routing").functions.get("compile_path")
+    if cp is None:
+        raise AnalysisError("baize.routing:compile_path vanished")
+    rep.analysed(cp.fq)
+    cpaths, _cc, _ci = run_paths(p, cp, None, inline=_di8, depth=3)
+    rep.cfg_paths += len(cpaths)
+    TABLE = ("global", "baize.routing:CONVERTOR_TYPES")
+
+    def _match_of(t):
+        # the match object whose group a term reads: M.groups(..)#i / M.group(i) / M[i]
+        for u in _st8(t):
+            if u[0] == "unpack" and u[1][0] == "call" and u[1][1][0] == "attr" and u[1][1][2] == "groups":
+                return u[1][1][1], u[2] + 1
+            if u[0] == "call" and u[1][0] == "attr" and u[1][2] == "group" and len(u[2]) == 1 and u[2][0][0] == "const":
+                return u[1][1], u[2][0][1]
+            if u[0] == "sub" and u[2][0] == "const" and isinstance(u[2][1], int) and u[1][0] in ("elem", "local", "call"):
+                return u[1], u[2][1]
+        return None
+    seen8 = set()
+    # (facts learned in a loop body are dropped on the back edge: a store made in an earlier iteration is seen again on longer
+    #  paths without the facts that guarded it - a store is judged with the facts of ALL paths that carry it)
+    facts_of8: Dict[tuple, set] = {}
+    for pa in cpaths:
+        for e in pa.events:
+            if e.kind == "store" and e.a[0] == "sub":
+                facts_of8.setdefault((e.a[2], e.b), set()).update(pa.facts)
+    for pa in cpaths:
+        for e in pa.events:
+            if e.kind != "store" or e.a[0] != "sub":
+                continue
+            km = _match_of(e.a[2])
+            if km is None or km[1] != 1:
+                continue  # not a store keyed by a placeholder name
+            key8 = (e.a[2], e.b)
+            if key8 in seen8:
+                continue
+            seen8.add(key8)
+            v = e.b
+            if not (v[0] == "sub" and v[1] == TABLE):
+                rep.undecide("R8.8", f"compile_path records {show(v)[:60]} for a placeholder: not a lookup in CONVERTOR_TYPES")
+                continue
+            tm = _match_of(v[2])
+            absent = False
+            if tm is None and v[2][0] == "const":
+                # CONVERTOR_TYPES["str"] on a path that established that THIS match has no type group (`{name}` means str)
+                for f_, t_ in facts_of8.get(key8, ()):
+                    if t_ and f_[0] == "cmp" and f_[1] == "Is" and f_[3] == NONE:
+                        gm = _match_of(f_[2])
+                        if gm is not None and gm[0] == km[0] and gm[1] == 2:
+                            absent = True
+                    elif (not t_) and f_[0] not in ("cmp",):
+                        gm = _match_of(f_)
+                        if gm is not None and gm[0] == km[0] and gm[1] == 2 and f_[0] in ("call", "unpack", "sub"):
+                            absent = True  # `if not type_suffix`
+            if tm is None and absent and v[2] == ("const", "str"):
+                rep.ok("R8.8", "compile_path: a placeholder without ':type' gets CONVERTOR_TYPES['str']")
+            elif tm is None:
+                rep.violation("R8.8", construct(cp, text=f"convertor = CONVERTOR_TYPES[{show(v[2])[:40]}]"), where(cp),
+                              f"compile_path records CONVERTOR_TYPES[{show(v[2])[:40]}] for every placeholder, not the convertor its ':type' names: a typed placeholder is matched by another type's language")
+            elif tm[0] != km[0] or tm[1] != 2:
+                rep.violation("R8.8", construct(cp, text=f"convertor = CONVERTOR_TYPES[{show(v[2])[:40]}]"), where(cp),
+                              "compile_path looks the convertor up by something other than the type group of the same placeholder match")
+            else:
+                rep.ok("R8.8", "compile_path: convertor of a placeholder = CONVERTOR_TYPES[type text of the same match]")
+    if not seen8:
+        rep.undecide("R8.8", "compile_path: no store keyed by a placeholder name found on its paths (placeholders collected in an idiom outside the table)")
+    rep.require_instances("R8.8", 1)
+
 
 def _subterms_all(v):
     if isinstance(v, tuple):
